@@ -1,5 +1,5 @@
 SPECIFICATION Spec
-CONSTANTS Tunings = {"default", "a1", "a1k3"} MaxGroup = 1 PermSet = "all"
+CONSTANTS Tunings = {"default", "a1"} MaxGroup = 1 PermSet = "all"
 CONSTANT KindSets <- KindSetsQuick
 CONSTANT Placements <- PlacementsQuick
 CONSTANT SubPatterns <- SubsQuick
